@@ -8,8 +8,8 @@
    The theorems are grouped (one conjunction per operator family) so that Print Assumptions runs once per family. *)
 From Coq Require Import List ZArith String Bool.
 Import ListNotations.
-Require Import Naga.Base.Bits32 Naga.Base.F32 Naga.IR.Values Naga.Msl.Syntax Naga.Msl.Ops Naga.Msl.Sem
-               Naga.Msl.Catalogue Naga.Msl.CatalogueProofs Naga.Msl.FloatConv Naga.Msl.FloatConvProofs Naga.Msl.VectorProofs Naga.Msl.CatalogueTie Naga.Gen.MslOpTable.
+Require Import Naga.Base.Bits32 Naga.Base.F32 Naga.IR.Values Naga.IR.Sem Naga.Msl.Syntax Naga.Msl.Ops Naga.Msl.Sem
+               Naga.Msl.Catalogue Naga.Msl.CatalogueProofs Naga.Msl.FloatConv Naga.Msl.FloatConvProofs Naga.Msl.VectorProofs Naga.Msl.VectorProofs2 Naga.Msl.IrMeaning Naga.Msl.Agreement Naga.Msl.CatalogueTie Naga.Gen.MslOpTable.
 Open Scope string_scope.
 Open Scope Z_scope.
 
@@ -214,6 +214,152 @@ Theorem c04_vector_hardened_operators :
   (forall a1 a2 a3 a4, in32 a1 -> in32 a2 -> in32 a3 -> in32 a4 -> run1 [] (t_sign_i32 4) (VVec [VI32 a1; VI32 a2; VI32 a3; VI32 a4]) = Done (VVec [VI32 (sign_i32 a1); VI32 (sign_i32 a2); VI32 (sign_i32 a3); VI32 (sign_i32 a4)])).
 Proof. exact (conj msl_add_i32_v2 (conj msl_add_u32_v2 (conj msl_sub_i32_v2 (conj msl_sub_u32_v2 (conj msl_mul_i32_v2 (conj msl_mul_u32_v2 (conj msl_abs_u32_v2 (conj msl_add_i32_v3 (conj msl_add_u32_v3 (conj msl_sub_i32_v3 (conj msl_sub_u32_v3 (conj msl_mul_i32_v3 (conj msl_mul_u32_v3 (conj msl_abs_u32_v3 (conj msl_add_i32_v4 (conj msl_add_u32_v4 (conj msl_sub_i32_v4 (conj msl_sub_u32_v4 (conj msl_mul_i32_v4 (conj msl_mul_u32_v4 (conj msl_abs_u32_v4 (conj msl_div_i32_v2 (conj msl_mod_i32_v2 (conj msl_div_u32_v2 (conj msl_mod_u32_v2 (conj msl_neg_i32_v2 (conj msl_abs_i32_v2 (conj msl_sign_i32_v2 (conj msl_div_i32_v3 (conj msl_mod_i32_v3 (conj msl_div_u32_v3 (conj msl_mod_u32_v3 (conj msl_neg_i32_v3 (conj msl_abs_i32_v3 (conj msl_sign_i32_v3 (conj msl_div_i32_v4 (conj msl_mod_i32_v4 (conj msl_div_u32_v4 (conj msl_mod_u32_v4 (conj msl_neg_i32_v4 (conj msl_abs_i32_v4 msl_sign_i32_v4))))))))))))))))))))))))))))))))))))))))). Qed.
 Print Assumptions c04_vector_hardened_operators.
+
+(* operator-level agreement of the emitted MSL template (Msl/Sem.v) with the IR expression it was generated from
+   (IR/Sem.v: eval_binary / eval_unary / eval_select / eval_math / eval_as), all 32-bit operands *)
+Theorem c04_msl_template_agrees_with_ir :
+  (forall a b, in32 a -> in32 b -> run2 [] (t_wrap_i32 BAdd 1) (VI32 a) (VI32 b) = eval_binary Naga.IR.Syntax.BAdd (VI32 a) (VI32 b)) /\
+  (forall a b, in32 a -> in32 b -> run2 [] (t_bin BAdd) (VU32 a) (VU32 b) = eval_binary Naga.IR.Syntax.BAdd (VU32 a) (VU32 b)) /\
+  (forall a b, in32 a -> in32 b -> run2 [] (t_wrap_i32 BSub 1) (VI32 a) (VI32 b) = eval_binary Naga.IR.Syntax.BSub (VI32 a) (VI32 b)) /\
+  (forall a b, in32 a -> in32 b -> run2 [] (t_bin BSub) (VU32 a) (VU32 b) = eval_binary Naga.IR.Syntax.BSub (VU32 a) (VU32 b)) /\
+  (forall a b, in32 a -> in32 b -> run2 [] (t_wrap_i32 BMul 1) (VI32 a) (VI32 b) = eval_binary Naga.IR.Syntax.BMul (VI32 a) (VI32 b)) /\
+  (forall a b, in32 a -> in32 b -> run2 [] (t_bin BMul) (VU32 a) (VU32 b) = eval_binary Naga.IR.Syntax.BMul (VU32 a) (VU32 b)) /\
+  (forall a b, in32 a -> in32 b -> run2 [] (t_bin BAdd) (VF32 a) (VF32 b) = eval_binary Naga.IR.Syntax.BAdd (VF32 a) (VF32 b)) /\
+  (forall a b, in32 a -> in32 b -> run2 [] (t_bin BSub) (VF32 a) (VF32 b) = eval_binary Naga.IR.Syntax.BSub (VF32 a) (VF32 b)) /\
+  (forall a b, in32 a -> in32 b -> run2 [] (t_bin BMul) (VF32 a) (VF32 b) = eval_binary Naga.IR.Syntax.BMul (VF32 a) (VF32 b)) /\
+  (forall a b, in32 a -> in32 b -> run2 [] (t_bin BDiv) (VF32 a) (VF32 b) = eval_binary Naga.IR.Syntax.BDiv (VF32 a) (VF32 b)) /\
+  (forall a b, in32 a -> in32 b -> run2 [] (t_bin BEq) (VI32 a) (VI32 b) = eval_binary Naga.IR.Syntax.BEq (VI32 a) (VI32 b)) /\
+  (forall a b, in32 a -> in32 b -> run2 [] (t_bin BNe) (VI32 a) (VI32 b) = eval_binary Naga.IR.Syntax.BNe (VI32 a) (VI32 b)) /\
+  (forall a b, in32 a -> in32 b -> run2 [] (t_bin BLt) (VI32 a) (VI32 b) = eval_binary Naga.IR.Syntax.BLt (VI32 a) (VI32 b)) /\
+  (forall a b, in32 a -> in32 b -> run2 [] (t_bin BLe) (VI32 a) (VI32 b) = eval_binary Naga.IR.Syntax.BLe (VI32 a) (VI32 b)) /\
+  (forall a b, in32 a -> in32 b -> run2 [] (t_bin BGt) (VI32 a) (VI32 b) = eval_binary Naga.IR.Syntax.BGt (VI32 a) (VI32 b)) /\
+  (forall a b, in32 a -> in32 b -> run2 [] (t_bin BGe) (VI32 a) (VI32 b) = eval_binary Naga.IR.Syntax.BGe (VI32 a) (VI32 b)) /\
+  (forall a b, in32 a -> in32 b -> run2 [] (t_bin BEq) (VU32 a) (VU32 b) = eval_binary Naga.IR.Syntax.BEq (VU32 a) (VU32 b)) /\
+  (forall a b, in32 a -> in32 b -> run2 [] (t_bin BNe) (VU32 a) (VU32 b) = eval_binary Naga.IR.Syntax.BNe (VU32 a) (VU32 b)) /\
+  (forall a b, in32 a -> in32 b -> run2 [] (t_bin BLt) (VU32 a) (VU32 b) = eval_binary Naga.IR.Syntax.BLt (VU32 a) (VU32 b)) /\
+  (forall a b, in32 a -> in32 b -> run2 [] (t_bin BLe) (VU32 a) (VU32 b) = eval_binary Naga.IR.Syntax.BLe (VU32 a) (VU32 b)) /\
+  (forall a b, in32 a -> in32 b -> run2 [] (t_bin BGt) (VU32 a) (VU32 b) = eval_binary Naga.IR.Syntax.BGt (VU32 a) (VU32 b)) /\
+  (forall a b, in32 a -> in32 b -> run2 [] (t_bin BGe) (VU32 a) (VU32 b) = eval_binary Naga.IR.Syntax.BGe (VU32 a) (VU32 b)) /\
+  (forall a b, in32 a -> in32 b -> run2 [] (t_bin BEq) (VF32 a) (VF32 b) = eval_binary Naga.IR.Syntax.BEq (VF32 a) (VF32 b)) /\
+  (forall a b, in32 a -> in32 b -> run2 [] (t_bin BNe) (VF32 a) (VF32 b) = eval_binary Naga.IR.Syntax.BNe (VF32 a) (VF32 b)) /\
+  (forall a b, in32 a -> in32 b -> run2 [] (t_bin BLt) (VF32 a) (VF32 b) = eval_binary Naga.IR.Syntax.BLt (VF32 a) (VF32 b)) /\
+  (forall a b, in32 a -> in32 b -> run2 [] (t_bin BLe) (VF32 a) (VF32 b) = eval_binary Naga.IR.Syntax.BLe (VF32 a) (VF32 b)) /\
+  (forall a b, in32 a -> in32 b -> run2 [] (t_bin BGt) (VF32 a) (VF32 b) = eval_binary Naga.IR.Syntax.BGt (VF32 a) (VF32 b)) /\
+  (forall a b, in32 a -> in32 b -> run2 [] (t_bin BGe) (VF32 a) (VF32 b) = eval_binary Naga.IR.Syntax.BGe (VF32 a) (VF32 b)) /\
+  (forall a b, run2 [] (t_bin BEq) (VBool a) (VBool b) = eval_binary Naga.IR.Syntax.BEq (VBool a) (VBool b)) /\
+  (forall a b, run2 [] (t_bin BNe) (VBool a) (VBool b) = eval_binary Naga.IR.Syntax.BNe (VBool a) (VBool b)) /\
+  (forall a b, in32 a -> in32 b -> run2 [] (t_bin BAnd) (VI32 a) (VI32 b) = eval_binary Naga.IR.Syntax.BAnd (VI32 a) (VI32 b)) /\
+  (forall a b, in32 a -> in32 b -> run2 [] (t_bin BOr) (VI32 a) (VI32 b) = eval_binary Naga.IR.Syntax.BOr (VI32 a) (VI32 b)) /\
+  (forall a b, in32 a -> in32 b -> run2 [] (t_bin BXor) (VI32 a) (VI32 b) = eval_binary Naga.IR.Syntax.BXor (VI32 a) (VI32 b)) /\
+  (forall a b, in32 a -> in32 b -> run2 [] (t_bin BShl) (VI32 a) (VU32 b) = eval_binary Naga.IR.Syntax.BShl (VI32 a) (VU32 b)) /\
+  (forall a b, in32 a -> in32 b -> run2 [] (t_bin BShr) (VI32 a) (VU32 b) = eval_binary Naga.IR.Syntax.BShr (VI32 a) (VU32 b)) /\
+  (forall a, in32 a -> run1 [] (EUn UBitNot va) (VI32 a) = eval_unary Naga.IR.Syntax.UBitwiseNot (VI32 a)) /\
+  (forall a b, in32 a -> in32 b -> run2 [] (t_bin BAnd) (VU32 a) (VU32 b) = eval_binary Naga.IR.Syntax.BAnd (VU32 a) (VU32 b)) /\
+  (forall a b, in32 a -> in32 b -> run2 [] (t_bin BOr) (VU32 a) (VU32 b) = eval_binary Naga.IR.Syntax.BOr (VU32 a) (VU32 b)) /\
+  (forall a b, in32 a -> in32 b -> run2 [] (t_bin BXor) (VU32 a) (VU32 b) = eval_binary Naga.IR.Syntax.BXor (VU32 a) (VU32 b)) /\
+  (forall a b, in32 a -> in32 b -> run2 [] (t_bin BShl) (VU32 a) (VU32 b) = eval_binary Naga.IR.Syntax.BShl (VU32 a) (VU32 b)) /\
+  (forall a b, in32 a -> in32 b -> run2 [] (t_bin BShr) (VU32 a) (VU32 b) = eval_binary Naga.IR.Syntax.BShr (VU32 a) (VU32 b)) /\
+  (forall a, in32 a -> run1 [] (EUn UBitNot va) (VU32 a) = eval_unary Naga.IR.Syntax.UBitwiseNot (VU32 a)) /\
+  (forall a b, run2 [] (t_bin BAnd) (VBool a) (VBool b) = eval_binary Naga.IR.Syntax.BAnd (VBool a) (VBool b)) /\
+  (forall a b, run2 [] (t_bin BOr) (VBool a) (VBool b) = eval_binary Naga.IR.Syntax.BOr (VBool a) (VBool b)) /\
+  (forall a, run1 [] (EUn UNot va) (VBool a) = eval_unary Naga.IR.Syntax.ULogicalNot (VBool a)) /\
+  (forall a, in32 a -> run1 [] (EUn UNeg va) (VF32 a) = eval_unary Naga.IR.Syntax.UNegate (VF32 a)) /\
+  (forall a b c, run3 [] t_ternary (VI32 a) (VI32 b) (VBool c) = eval_select (VBool c) (VI32 b) (VI32 a)) /\
+  (forall a b c, run3 [] t_ternary (VU32 a) (VU32 b) (VBool c) = eval_select (VBool c) (VU32 b) (VU32 a)) /\
+  (forall a b c, run3 [] t_ternary (VF32 a) (VF32 b) (VBool c) = eval_select (VBool c) (VF32 b) (VF32 a)) /\
+  (forall a b c, run3 [] t_ternary (VBool a) (VBool b) (VBool c) = eval_select (VBool c) (VBool b) (VBool a)) /\
+  (forall a, in32 a -> run1 [] (t_call1 "metal::abs") (VU32 a) = eval_math "MathAbs" [VU32 a]) /\
+  (forall a, in32 a -> run1 [] (t_call1 "metal::abs") (VF32 a) = eval_math "MathAbs" [VF32 a]) /\
+  (forall a b, in32 a -> in32 b -> run2 [] (t_call2 "metal::min") (VI32 a) (VI32 b) = eval_math "MathMin" [VI32 a; VI32 b]) /\
+  (forall a b, in32 a -> in32 b -> run2 [] (t_call2 "metal::max") (VI32 a) (VI32 b) = eval_math "MathMax" [VI32 a; VI32 b]) /\
+  (forall a b c, in32 a -> in32 b -> in32 c -> run3 [] (t_call3 "metal::clamp") (VI32 a) (VI32 b) (VI32 c) = eval_math "MathClamp" [VI32 a; VI32 b; VI32 c]) /\
+  (forall a b, in32 a -> in32 b -> run2 [] (t_call2 "metal::min") (VU32 a) (VU32 b) = eval_math "MathMin" [VU32 a; VU32 b]) /\
+  (forall a b, in32 a -> in32 b -> run2 [] (t_call2 "metal::max") (VU32 a) (VU32 b) = eval_math "MathMax" [VU32 a; VU32 b]) /\
+  (forall a b c, in32 a -> in32 b -> in32 c -> run3 [] (t_call3 "metal::clamp") (VU32 a) (VU32 b) (VU32 c) = eval_math "MathClamp" [VU32 a; VU32 b; VU32 c]) /\
+  (forall a b, in32 a -> in32 b -> run2 [] (t_call2 "metal::min") (VF32 a) (VF32 b) = eval_math "MathMin" [VF32 a; VF32 b]) /\
+  (forall a b, in32 a -> in32 b -> run2 [] (t_call2 "metal::max") (VF32 a) (VF32 b) = eval_math "MathMax" [VF32 a; VF32 b]) /\
+  (forall a b c, in32 a -> in32 b -> in32 c -> run3 [] (t_call3 "metal::clamp") (VF32 a) (VF32 b) (VF32 c) = eval_math "MathClamp" [VF32 a; VF32 b; VF32 c]) /\
+  (forall a, in32 a -> run1 [] (t_call1 "metal::popcount") (VI32 a) = eval_math "MathCountOneBits" [VI32 a]) /\
+  (forall a, in32 a -> run1 [] (t_call1 "metal::clz") (VI32 a) = eval_math "MathCountLeadingZeros" [VI32 a]) /\
+  (forall a, in32 a -> run1 [] (t_call1 "metal::ctz") (VI32 a) = eval_math "MathCountTrailingZeros" [VI32 a]) /\
+  (forall a, in32 a -> run1 [] (t_call1 "metal::reverse_bits") (VI32 a) = eval_math "MathReverseBits" [VI32 a]) /\
+  (forall a, in32 a -> run1 [] (t_call1 "metal::popcount") (VU32 a) = eval_math "MathCountOneBits" [VU32 a]) /\
+  (forall a, in32 a -> run1 [] (t_call1 "metal::clz") (VU32 a) = eval_math "MathCountLeadingZeros" [VU32 a]) /\
+  (forall a, in32 a -> run1 [] (t_call1 "metal::ctz") (VU32 a) = eval_math "MathCountTrailingZeros" [VU32 a]) /\
+  (forall a, in32 a -> run1 [] (t_call1 "metal::reverse_bits") (VU32 a) = eval_math "MathReverseBits" [VU32 a]) /\
+  (forall a, in32 a -> run1 [] (t_call1 "metal::floor") (VF32 a) = eval_math "MathFloor" [VF32 a]) /\
+  (forall a, in32 a -> run1 [] (t_call1 "metal::ceil") (VF32 a) = eval_math "MathCeil" [VF32 a]) /\
+  (forall a, in32 a -> run1 [] (t_call1 "metal::trunc") (VF32 a) = eval_math "MathTrunc" [VF32 a]) /\
+  (forall a, in32 a -> run1 [] (t_call1 "metal::sqrt") (VF32 a) = eval_math "MathSqrt" [VF32 a]) /\
+  (forall a, in32 a -> run1 [] (t_call1 "metal::saturate") (VF32 a) = eval_math "MathSaturate" [VF32 a]) /\
+  (forall a b c, in32 a -> in32 b -> in32 c -> run3 [] (t_call3 "metal::fma") (VF32 a) (VF32 b) (VF32 c) = eval_math "MathFma" [VF32 a; VF32 b; VF32 c]) /\
+  (forall a, in32 a -> run1 [] (ECast (tyv 1 SUint) va) (VI32 a) = eval_as Naga.IR.Syntax.Uint (Some 4) (VI32 a)) /\
+  (forall a, in32 a -> run1 [] (ECast (tyv 1 SFloat) va) (VI32 a) = eval_as Naga.IR.Syntax.Float (Some 4) (VI32 a)) /\
+  (forall a, in32 a -> run1 [] (ECast (tyv 1 SBool) va) (VI32 a) = eval_as Naga.IR.Syntax.SBool (Some 1) (VI32 a)) /\
+  (forall a, in32 a -> run1 [] (ECast (tyv 1 SInt) va) (VU32 a) = eval_as Naga.IR.Syntax.Sint (Some 4) (VU32 a)) /\
+  (forall a, in32 a -> run1 [] (ECast (tyv 1 SFloat) va) (VU32 a) = eval_as Naga.IR.Syntax.Float (Some 4) (VU32 a)) /\
+  (forall a, in32 a -> run1 [] (ECast (tyv 1 SBool) va) (VU32 a) = eval_as Naga.IR.Syntax.SBool (Some 1) (VU32 a)) /\
+  (forall a, in32 a -> run1 [] (ECast (tyv 1 SBool) va) (VF32 a) = eval_as Naga.IR.Syntax.SBool (Some 1) (VF32 a)) /\
+  (forall a, run1 [] (ECast (tyv 1 SInt) va) (VBool a) = eval_as Naga.IR.Syntax.Sint (Some 4) (VBool a)) /\
+  (forall a, run1 [] (ECast (tyv 1 SUint) va) (VBool a) = eval_as Naga.IR.Syntax.Uint (Some 4) (VBool a)) /\
+  (forall a, run1 [] (ECast (tyv 1 SFloat) va) (VBool a) = eval_as Naga.IR.Syntax.Float (Some 4) (VBool a)) /\
+  (forall a, in32 a -> run1 [] (EAsType (tyv 1 SUint) va) (VI32 a) = eval_as Naga.IR.Syntax.Uint None (VI32 a)) /\
+  (forall a, in32 a -> run1 [] (EAsType (tyv 1 SFloat) va) (VI32 a) = eval_as Naga.IR.Syntax.Float None (VI32 a)) /\
+  (forall a, in32 a -> run1 [] (EAsType (tyv 1 SInt) va) (VU32 a) = eval_as Naga.IR.Syntax.Sint None (VU32 a)) /\
+  (forall a, in32 a -> run1 [] (EAsType (tyv 1 SFloat) va) (VU32 a) = eval_as Naga.IR.Syntax.Float None (VU32 a)) /\
+  (forall a, in32 a -> run1 [] (EAsType (tyv 1 SInt) va) (VF32 a) = eval_as Naga.IR.Syntax.Sint None (VF32 a)) /\
+  (forall a, in32 a -> run1 [] (EAsType (tyv 1 SUint) va) (VF32 a) = eval_as Naga.IR.Syntax.Uint None (VF32 a)) /\
+  (forall a b, in32 a -> in32 b -> run2 [h_div_i32 1] (t_call2 "naga_div") (VI32 a) (VI32 b) = eval_binary Naga.IR.Syntax.BDiv (VI32 a) (VI32 b)) /\
+  (forall a b, in32 a -> in32 b -> run2 [h_mod_i32 1] (t_call2 "naga_mod") (VI32 a) (VI32 b) = eval_binary Naga.IR.Syntax.BMod (VI32 a) (VI32 b)) /\
+  (forall a b, in32 a -> in32 b -> run2 [h_div_u32 1] (t_call2 "naga_div") (VU32 a) (VU32 b) = eval_binary Naga.IR.Syntax.BDiv (VU32 a) (VU32 b)) /\
+  (forall a b, in32 a -> in32 b -> run2 [h_mod_u32 1] (t_call2 "naga_mod") (VU32 a) (VU32 b) = eval_binary Naga.IR.Syntax.BMod (VU32 a) (VU32 b)) /\
+  (forall a, in32 a -> run1 [h_neg_i32 1] (t_call1 "naga_neg") (VI32 a) = eval_unary Naga.IR.Syntax.UNegate (VI32 a)) /\
+  (forall a, in32 a -> run1 [h_abs_i32 1] (t_call1 "naga_abs") (VI32 a) = eval_math "MathAbs" [VI32 a]) /\
+  (forall a, in32 a -> run1 [] (t_sign_i32 1) (VI32 a) = eval_math "MathSign" [VI32 a]) /\
+  (forall a, in32 a -> run1 [] t_ftb (VI32 a) = eval_math "MathFirstTrailingBit" [VI32 a]) /\
+  (forall a, in32 a -> run1 [] t_ftb (VU32 a) = eval_math "MathFirstTrailingBit" [VU32 a]) /\
+  (forall a, in32 a -> run1 [] (t_flb_i32 1) (VI32 a) = eval_math "MathFirstLeadingBit" [VI32 a]) /\
+  (forall a b c, in32 a -> in32 b -> in32 c -> run3 [] t_extract (VU32 a) (VU32 b) (VU32 c) = eval_math "MathExtractBits" [VU32 a; VU32 b; VU32 c]) /\
+  (forall a b c, in32 a -> in32 b -> in32 c -> run3 [] t_extract (VI32 a) (VU32 b) (VU32 c) = eval_math "MathExtractBits" [VI32 a; VU32 b; VU32 c]) /\
+  (forall a b c d, in32 a -> in32 b -> in32 c -> in32 d -> run_tmpl [] t_insert (VU32 a) (VU32 b) (VU32 c) (VU32 d) = eval_math "MathInsertBits" [VU32 a; VU32 b; VU32 c; VU32 d]) /\
+  (forall a b c d, in32 a -> in32 b -> in32 c -> in32 d -> run_tmpl [] t_insert (VI32 a) (VI32 b) (VU32 c) (VU32 d) = eval_math "MathInsertBits" [VI32 a; VI32 b; VU32 c; VU32 d]).
+Proof. exact (conj agree_add_i32 (conj agree_add_u32 (conj agree_sub_i32 (conj agree_sub_u32 (conj agree_mul_i32 (conj agree_mul_u32 (conj agree_add_f32 (conj agree_sub_f32 (conj agree_mul_f32 (conj agree_div_f32 (conj agree_eq_i32 (conj agree_ne_i32 (conj agree_lt_i32 (conj agree_le_i32 (conj agree_gt_i32 (conj agree_ge_i32 (conj agree_eq_u32 (conj agree_ne_u32 (conj agree_lt_u32 (conj agree_le_u32 (conj agree_gt_u32 (conj agree_ge_u32 (conj agree_eq_f32 (conj agree_ne_f32 (conj agree_lt_f32 (conj agree_le_f32 (conj agree_gt_f32 (conj agree_ge_f32 (conj agree_eq_bool (conj agree_ne_bool (conj agree_and_i32 (conj agree_or_i32 (conj agree_xor_i32 (conj agree_shl_i32 (conj agree_shr_i32 (conj agree_not_i32 (conj agree_and_u32 (conj agree_or_u32 (conj agree_xor_u32 (conj agree_shl_u32 (conj agree_shr_u32 (conj agree_not_u32 (conj agree_and_bool (conj agree_or_bool (conj agree_lnot_bool (conj agree_neg_f32 (conj agree_select_i32 (conj agree_select_u32 (conj agree_select_f32 (conj agree_select_bool (conj agree_abs_u32 (conj agree_abs_f32 (conj agree_min_i32 (conj agree_max_i32 (conj agree_clamp_i32 (conj agree_min_u32 (conj agree_max_u32 (conj agree_clamp_u32 (conj agree_min_f32 (conj agree_max_f32 (conj agree_clamp_f32 (conj agree_popcount_i32 (conj agree_clz_i32 (conj agree_ctz_i32 (conj agree_reversebits_i32 (conj agree_popcount_u32 (conj agree_clz_u32 (conj agree_ctz_u32 (conj agree_reversebits_u32 (conj agree_floor_f32 (conj agree_ceil_f32 (conj agree_trunc_f32 (conj agree_sqrt_f32 (conj agree_saturate_f32 (conj agree_fma_f32 (conj agree_conv_i32_u32 (conj agree_conv_i32_f32 (conj agree_conv_i32_bool (conj agree_conv_u32_i32 (conj agree_conv_u32_f32 (conj agree_conv_u32_bool (conj agree_conv_f32_bool (conj agree_conv_bool_i32 (conj agree_conv_bool_u32 (conj agree_conv_bool_f32 (conj agree_bitcast_i32_u32 (conj agree_bitcast_i32_f32 (conj agree_bitcast_u32_i32 (conj agree_bitcast_u32_f32 (conj agree_bitcast_f32_i32 (conj agree_bitcast_f32_u32 (conj agree_div_i32 (conj agree_mod_i32 (conj agree_div_u32 (conj agree_mod_u32 (conj agree_neg_i32 (conj agree_abs_i32 (conj agree_sign_i32 (conj agree_firsttrailingbit_i32 (conj agree_firsttrailingbit_u32 (conj agree_firstleadingbit_i32 (conj agree_extractbits_u32 (conj agree_extractbits_i32 (conj agree_insertbits_u32 agree_insertbits_i32)))))))))))))))))))))))))))))))))))))))))))))))))))))))))))))))))))))))))))))))))))))))))))))))))))))))). Qed.
+Print Assumptions c04_msl_template_agrees_with_ir.
+
+(* vector shapes of the bit-field / bit-scan builtins and of the float->int helpers *)
+Theorem c04_vector_bit_builtins_and_float_to_int :
+  (forall a1 a2 b c, in32 b -> in32 c -> run3 [] t_extract (VVec [VI32 a1; VI32 a2]) (VU32 b) (VU32 c) = Done (VVec [VI32 (extract_bits_i32 a1 b c); VI32 (extract_bits_i32 a2 b c)])) /\
+  (forall a1 a2 b1 b2 c d, in32 c -> in32 d -> run_tmpl [] t_insert (VVec [VI32 a1; VI32 a2]) (VVec [VI32 b1; VI32 b2]) (VU32 c) (VU32 d) = Done (VVec [VI32 (insert_bits a1 b1 c d); VI32 (insert_bits a2 b2 c d)])) /\
+  (forall a1 a2 b c, in32 b -> in32 c -> run3 [] t_extract (VVec [VU32 a1; VU32 a2]) (VU32 b) (VU32 c) = Done (VVec [VU32 (extract_bits_u32 a1 b c); VU32 (extract_bits_u32 a2 b c)])) /\
+  (forall a1 a2 b1 b2 c d, in32 c -> in32 d -> run_tmpl [] t_insert (VVec [VU32 a1; VU32 a2]) (VVec [VU32 b1; VU32 b2]) (VU32 c) (VU32 d) = Done (VVec [VU32 (insert_bits a1 b1 c d); VU32 (insert_bits a2 b2 c d)])) /\
+  (forall a1 a2, in32 a1 -> in32 a2 -> run1 [] t_ftb (VVec [VU32 a1; VU32 a2]) = Done (VVec [VU32 (first_trailing_bit a1); VU32 (first_trailing_bit a2)])) /\
+  (forall a1 a2, is_nan_bits a1 = false -> flt F_HI a1 = false -> is_nan_bits a2 = false -> flt F_HI a2 = false -> run1 [h_f2i32 2] (t_call1 "naga_f2i32") (VVec [VF32 a1; VF32 a2]) = Done (VVec [VI32 (i32_of_f32 a1); VI32 (i32_of_f32 a2)])) /\
+  (forall a1 a2, flt F_UHI a1 = false -> flt F_UHI a2 = false -> run1 [h_f2u32 2] (t_call1 "naga_f2u32") (VVec [VF32 a1; VF32 a2]) = Done (VVec [VU32 (u32_of_f32 a1); VU32 (u32_of_f32 a2)])) /\
+  (forall a1 a2 a3 b c, in32 b -> in32 c -> run3 [] t_extract (VVec [VI32 a1; VI32 a2; VI32 a3]) (VU32 b) (VU32 c) = Done (VVec [VI32 (extract_bits_i32 a1 b c); VI32 (extract_bits_i32 a2 b c); VI32 (extract_bits_i32 a3 b c)])) /\
+  (forall a1 a2 a3 b1 b2 b3 c d, in32 c -> in32 d -> run_tmpl [] t_insert (VVec [VI32 a1; VI32 a2; VI32 a3]) (VVec [VI32 b1; VI32 b2; VI32 b3]) (VU32 c) (VU32 d) = Done (VVec [VI32 (insert_bits a1 b1 c d); VI32 (insert_bits a2 b2 c d); VI32 (insert_bits a3 b3 c d)])) /\
+  (forall a1 a2 a3 b c, in32 b -> in32 c -> run3 [] t_extract (VVec [VU32 a1; VU32 a2; VU32 a3]) (VU32 b) (VU32 c) = Done (VVec [VU32 (extract_bits_u32 a1 b c); VU32 (extract_bits_u32 a2 b c); VU32 (extract_bits_u32 a3 b c)])) /\
+  (forall a1 a2 a3 b1 b2 b3 c d, in32 c -> in32 d -> run_tmpl [] t_insert (VVec [VU32 a1; VU32 a2; VU32 a3]) (VVec [VU32 b1; VU32 b2; VU32 b3]) (VU32 c) (VU32 d) = Done (VVec [VU32 (insert_bits a1 b1 c d); VU32 (insert_bits a2 b2 c d); VU32 (insert_bits a3 b3 c d)])) /\
+  (forall a1 a2 a3, in32 a1 -> in32 a2 -> in32 a3 -> run1 [] t_ftb (VVec [VU32 a1; VU32 a2; VU32 a3]) = Done (VVec [VU32 (first_trailing_bit a1); VU32 (first_trailing_bit a2); VU32 (first_trailing_bit a3)])) /\
+  (forall a1 a2 a3, is_nan_bits a1 = false -> flt F_HI a1 = false -> is_nan_bits a2 = false -> flt F_HI a2 = false -> is_nan_bits a3 = false -> flt F_HI a3 = false -> run1 [h_f2i32 3] (t_call1 "naga_f2i32") (VVec [VF32 a1; VF32 a2; VF32 a3]) = Done (VVec [VI32 (i32_of_f32 a1); VI32 (i32_of_f32 a2); VI32 (i32_of_f32 a3)])) /\
+  (forall a1 a2 a3, flt F_UHI a1 = false -> flt F_UHI a2 = false -> flt F_UHI a3 = false -> run1 [h_f2u32 3] (t_call1 "naga_f2u32") (VVec [VF32 a1; VF32 a2; VF32 a3]) = Done (VVec [VU32 (u32_of_f32 a1); VU32 (u32_of_f32 a2); VU32 (u32_of_f32 a3)])) /\
+  (forall a1 a2 a3 a4 b c, in32 b -> in32 c -> run3 [] t_extract (VVec [VI32 a1; VI32 a2; VI32 a3; VI32 a4]) (VU32 b) (VU32 c) = Done (VVec [VI32 (extract_bits_i32 a1 b c); VI32 (extract_bits_i32 a2 b c); VI32 (extract_bits_i32 a3 b c); VI32 (extract_bits_i32 a4 b c)])) /\
+  (forall a1 a2 a3 a4 b1 b2 b3 b4 c d, in32 c -> in32 d -> run_tmpl [] t_insert (VVec [VI32 a1; VI32 a2; VI32 a3; VI32 a4]) (VVec [VI32 b1; VI32 b2; VI32 b3; VI32 b4]) (VU32 c) (VU32 d) = Done (VVec [VI32 (insert_bits a1 b1 c d); VI32 (insert_bits a2 b2 c d); VI32 (insert_bits a3 b3 c d); VI32 (insert_bits a4 b4 c d)])) /\
+  (forall a1 a2 a3 a4 b c, in32 b -> in32 c -> run3 [] t_extract (VVec [VU32 a1; VU32 a2; VU32 a3; VU32 a4]) (VU32 b) (VU32 c) = Done (VVec [VU32 (extract_bits_u32 a1 b c); VU32 (extract_bits_u32 a2 b c); VU32 (extract_bits_u32 a3 b c); VU32 (extract_bits_u32 a4 b c)])) /\
+  (forall a1 a2 a3 a4 b1 b2 b3 b4 c d, in32 c -> in32 d -> run_tmpl [] t_insert (VVec [VU32 a1; VU32 a2; VU32 a3; VU32 a4]) (VVec [VU32 b1; VU32 b2; VU32 b3; VU32 b4]) (VU32 c) (VU32 d) = Done (VVec [VU32 (insert_bits a1 b1 c d); VU32 (insert_bits a2 b2 c d); VU32 (insert_bits a3 b3 c d); VU32 (insert_bits a4 b4 c d)])) /\
+  (forall a1 a2 a3 a4, in32 a1 -> in32 a2 -> in32 a3 -> in32 a4 -> run1 [] t_ftb (VVec [VU32 a1; VU32 a2; VU32 a3; VU32 a4]) = Done (VVec [VU32 (first_trailing_bit a1); VU32 (first_trailing_bit a2); VU32 (first_trailing_bit a3); VU32 (first_trailing_bit a4)])) /\
+  (forall a1 a2 a3 a4, is_nan_bits a1 = false -> flt F_HI a1 = false -> is_nan_bits a2 = false -> flt F_HI a2 = false -> is_nan_bits a3 = false -> flt F_HI a3 = false -> is_nan_bits a4 = false -> flt F_HI a4 = false -> run1 [h_f2i32 4] (t_call1 "naga_f2i32") (VVec [VF32 a1; VF32 a2; VF32 a3; VF32 a4]) = Done (VVec [VI32 (i32_of_f32 a1); VI32 (i32_of_f32 a2); VI32 (i32_of_f32 a3); VI32 (i32_of_f32 a4)])) /\
+  (forall a1 a2 a3 a4, flt F_UHI a1 = false -> flt F_UHI a2 = false -> flt F_UHI a3 = false -> flt F_UHI a4 = false -> run1 [h_f2u32 4] (t_call1 "naga_f2u32") (VVec [VF32 a1; VF32 a2; VF32 a3; VF32 a4]) = Done (VVec [VU32 (u32_of_f32 a1); VU32 (u32_of_f32 a2); VU32 (u32_of_f32 a3); VU32 (u32_of_f32 a4)])) /\
+  (forall a1 a2, in32 a1 -> in32 a2 -> run1 [] t_ftb (VVec [VI32 a1; VI32 a2]) = Done (VVec [VI32 (first_trailing_bit a1); VI32 (first_trailing_bit a2)])) /\
+  (forall a1 a2, in32 a1 -> in32 a2 -> run1 [] (t_flb_i32 2) (VVec [VI32 a1; VI32 a2]) = Done (VVec [VI32 (first_leading_bit_i32 a1); VI32 (first_leading_bit_i32 a2)])) /\
+  (forall a1 a2, in32 a1 -> a1 <> 4294967295 -> in32 a2 -> a2 <> 4294967295 -> run1 [] (t_flb_u32 2) (VVec [VU32 a1; VU32 a2]) = Done (VVec [VU32 (first_leading_bit_u32 a1); VU32 (first_leading_bit_u32 a2)])) /\
+  (forall a1 a2 a3, in32 a1 -> in32 a2 -> in32 a3 -> run1 [] t_ftb (VVec [VI32 a1; VI32 a2; VI32 a3]) = Done (VVec [VI32 (first_trailing_bit a1); VI32 (first_trailing_bit a2); VI32 (first_trailing_bit a3)])) /\
+  (forall a1 a2 a3, in32 a1 -> in32 a2 -> in32 a3 -> run1 [] (t_flb_i32 3) (VVec [VI32 a1; VI32 a2; VI32 a3]) = Done (VVec [VI32 (first_leading_bit_i32 a1); VI32 (first_leading_bit_i32 a2); VI32 (first_leading_bit_i32 a3)])) /\
+  (forall a1 a2 a3, in32 a1 -> a1 <> 4294967295 -> in32 a2 -> a2 <> 4294967295 -> in32 a3 -> a3 <> 4294967295 -> run1 [] (t_flb_u32 3) (VVec [VU32 a1; VU32 a2; VU32 a3]) = Done (VVec [VU32 (first_leading_bit_u32 a1); VU32 (first_leading_bit_u32 a2); VU32 (first_leading_bit_u32 a3)])) /\
+  (forall a1 a2 a3 a4, in32 a1 -> in32 a2 -> in32 a3 -> in32 a4 -> run1 [] t_ftb (VVec [VI32 a1; VI32 a2; VI32 a3; VI32 a4]) = Done (VVec [VI32 (first_trailing_bit a1); VI32 (first_trailing_bit a2); VI32 (first_trailing_bit a3); VI32 (first_trailing_bit a4)])) /\
+  (forall a1 a2 a3 a4, in32 a1 -> in32 a2 -> in32 a3 -> in32 a4 -> run1 [] (t_flb_i32 4) (VVec [VI32 a1; VI32 a2; VI32 a3; VI32 a4]) = Done (VVec [VI32 (first_leading_bit_i32 a1); VI32 (first_leading_bit_i32 a2); VI32 (first_leading_bit_i32 a3); VI32 (first_leading_bit_i32 a4)])) /\
+  (forall a1 a2 a3 a4, in32 a1 -> a1 <> 4294967295 -> in32 a2 -> a2 <> 4294967295 -> in32 a3 -> a3 <> 4294967295 -> in32 a4 -> a4 <> 4294967295 -> run1 [] (t_flb_u32 4) (VVec [VU32 a1; VU32 a2; VU32 a3; VU32 a4]) = Done (VVec [VU32 (first_leading_bit_u32 a1); VU32 (first_leading_bit_u32 a2); VU32 (first_leading_bit_u32 a3); VU32 (first_leading_bit_u32 a4)])).
+Proof. exact (conj msl_extractbits_i32_v2 (conj msl_insertbits_i32_v2 (conj msl_extractbits_u32_v2 (conj msl_insertbits_u32_v2 (conj msl_firsttrailingbit_u32_v2 (conj msl_conv_f32_i32_v2_correct_below_2p31 (conj msl_conv_f32_u32_v2_correct_below_2p32 (conj msl_extractbits_i32_v3 (conj msl_insertbits_i32_v3 (conj msl_extractbits_u32_v3 (conj msl_insertbits_u32_v3 (conj msl_firsttrailingbit_u32_v3 (conj msl_conv_f32_i32_v3_correct_below_2p31 (conj msl_conv_f32_u32_v3_correct_below_2p32 (conj msl_extractbits_i32_v4 (conj msl_insertbits_i32_v4 (conj msl_extractbits_u32_v4 (conj msl_insertbits_u32_v4 (conj msl_firsttrailingbit_u32_v4 (conj msl_conv_f32_i32_v4_correct_below_2p31 (conj msl_conv_f32_u32_v4_correct_below_2p32 (conj msl_firsttrailingbit_i32_v2 (conj msl_firstleadingbit_i32_v2 (conj msl_firstleadingbit_u32_v2_correct_except_allones (conj msl_firsttrailingbit_i32_v3 (conj msl_firstleadingbit_i32_v3 (conj msl_firstleadingbit_u32_v3_correct_except_allones (conj msl_firsttrailingbit_i32_v4 (conj msl_firstleadingbit_i32_v4 msl_firstleadingbit_u32_v4_correct_except_allones))))))))))))))))))))))))))))). Qed.
+Print Assumptions c04_vector_bit_builtins_and_float_to_int.
 
 (* non-vacuity: concrete instances at the boundaries; the un-wrapped forms really are undefined in the strict semantics *)
 Example c04_example_add_wraps :
